@@ -25,7 +25,7 @@ type c01Drop struct{ v any }
 
 func (d c01Drop) ToLiquid() any { return d.v }
 
-const c01Receivers = 20
+const c01Receivers = 21
 
 // c01Receiver returns the k-th receiver of the boundary universe (concrete: many filters
 // print their receiver, and printing is native).
@@ -69,6 +69,8 @@ func c01Receiver(k int) any {
 		return values.NewRange(3, 1)
 	case 18:
 		return c01Drop{nil}
+	case 20:
+		return map[any]any{"k": []any{1}, 2: "x"}
 	default:
 		return []string{"b", "", "a"}
 	}
